@@ -62,7 +62,7 @@ func c07Emit(kind, class string, must bool, pid, call, bind, src string) bool {
 }
 
 func c07Gen(tier string, rng *hx.Rng) {
-	nprog, maxMut := 110, 20
+	nprog, maxMut := 110, 26
 	if tier == "thorough" {
 		nprog, maxMut = 700, 40
 	}
